@@ -205,6 +205,9 @@ func (s *RefStore) dump() string {
 	for _, n := range s.names() {
 		c := s.Colls[n]
 		cnt, b := c.totals()
+		if bytesUnspecified {
+			b = 0
+		}
 		fmt.Fprintf(&sb, "[%s n=%d b=%d", hx([]byte(n)), cnt, b)
 		for _, it := range c.Items {
 			fmt.Fprintf(&sb, " %s/%s/%d", hx(it.Key), hx(it.Val), it.Prio)
